@@ -1,0 +1,13 @@
+//go:build verif
+
+// Verification hook (add-only, compiled only with -tags verif): lets the crash
+// harness of /verif substitute Pebble's filesystem (vfs.NewStrictMem drops
+// everything that was not synced when ResetToSyncedState is called).
+package kv
+
+import "github.com/cockroachdb/pebble/vfs"
+
+var verifFS vfs.FS
+
+// VerifSetFS makes every Pebble instance opened afterwards use fs (nil restores the default).
+func VerifSetFS(fs vfs.FS) { verifFS = fs }
